@@ -253,3 +253,47 @@ func init() {
 		engCase{"lit-copy-temp-wrong", litCopy, "viaTempWrong", r, false},
 	)
 }
+
+const switchFlag = `package snippet
+type pod struct{ host bool; cs []int; labels map[string]string }
+func ignored(map[string]string) bool { return false }
+func mark() {}
+func viaSwitch(p *pod) {
+	var reason string
+	var skip bool
+	switch {
+	case p.host:
+		reason, skip = "host", true
+	case len(p.cs) == 0:
+		reason, skip = "none", true
+	case ignored(p.labels):
+		reason, skip = "ign", true
+	default:
+		reason, skip = "", false
+	}
+	if skip {
+		_ = reason
+		return
+	}
+	mark()
+}
+func viaSwitchNoGuard(p *pod) {
+	var skip bool
+	switch {
+	case p.host:
+		skip = true
+	default:
+		skip = false
+	}
+	if skip {
+		return
+	}
+	mark()
+}`
+
+func init() {
+	engCases = append(engCases,
+		engCase{"switch-flag", switchFlag, "viaSwitch", "len(p.cs) > 0", true},
+		engCase{"switch-flag-missing-case", switchFlag, "viaSwitchNoGuard", "len(p.cs) > 0", false},
+	)
+}
